@@ -16,17 +16,28 @@
 (*     l.854-894, _simulate_price_change_effect_multiple_candles FEndMinute,     *)
 (*     l.897-983, CandlesState.add_multiple_1m_candles           AddChunk        *)
 (* Reads = CandlesState.get_candles / get_current_candle (l.329-392).           *)
-(* Named deviations (TRUE = what the code does, FALSE = what the property asks): *)
+(* Named deviations (TRUE = the deviation, FALSE = what the property asks; the   *)
+(* first three were in the code until commits 75ff7bf2 / f8ad570d repaired      *)
+(* them, the fourth is a plausible "speed-up" that must never be made):         *)
 (*   QStale        get_candles returns the stored forming row untouched when its *)
 (*                 timestamp is the forming window's start                       *)
 (*   QEmptyRead    get_candles indexes [-1] of an empty array (IndexError) when  *)
 (*                 a window is forming and no candle of that timeframe is stored *)
 (*   QPartialChunk the fast simulator generates a timeframe candle from a slice  *)
 (*                 that runs past the end of the series (ValueError)             *)
+(*   QChunkTrading the fast simulator's step is the gcd of the TRADING routes    *)
+(*                 only (the code: gcd of trading AND data routes, which is what *)
+(*                 makes "at most one candle per timeframe per chunk" enough)    *)
 EXTENDS Integers, Sequences, FiniteSets, TLC, Json
-CONSTANTS TFs, TradeTF, Warm, N, MaxFills, Fast, Chunk, QStale, QEmptyRead, QPartialChunk, Export
-ASSUME /\ \A T \in TFs : T > 1 /\ Warm % T = 0 /\ T % Chunk = 0
-       /\ TradeTF \in TFs \cup {1} /\ TradeTF % Chunk = 0 /\ (~Fast => Chunk = 1)
+CONSTANTS TFs, TradeTF, Warm, N, MaxFills, Fast, QStale, QEmptyRead, QPartialChunk, QChunkTrading, Export
+ASSUME /\ \A T \in TFs : T > 1 /\ Warm % T = 0
+       /\ TradeTF \in TFs \cup {1}
+\* _calculate_minimum_candle_step: gcd over router.all_formatted_routes (trading + data routes)
+RECURSIVE GCD(_, _)
+GCD(a, b) == IF b = 0 THEN a ELSE GCD(b, a % b)
+RECURSIVE GCDSet(_)
+GCDSet(S) == IF S = {} THEN 0 ELSE LET x == CHOOSE y \in S : TRUE IN GCD(x, GCDSet(S \ {x}))
+Chunk == IF ~Fast THEN 1 ELSE IF QChunkTrading THEN TradeTF ELSE GCDSet(TFs \cup {TradeTF})
 
 VARIABLES i,       \* trading-minute index being processed (step) / start of the chunk (fast); -1 before the first
           k,       \* fast: offset of the minute being matched inside the chunk
